@@ -383,6 +383,21 @@ func runC13(c *Ctx, out string) {
 		}
 	}
 	lines = uniq(lines)
+	// history stress: calls that differ only in the letter case of reference names / ids, long unsorted lists
+	long := []string{"Zlib", "MIT", "Apache-2.0", "MIT", "ISC", "BSD-3-Clause", "Apache-2.0", "X11", "0BSD", "WTFPL", "curl", "Ruby", "Vim", "NCSA", "BSL-1.0", "CC0-1.0", "EPL-2.0", "Beerware", "ISC", "AAL"}
+	lines = append(lines,
+		"S "+hx("MIT")+" "+hxl([]string{"MIT", "LicenseRef-Corp-TOS"}),
+		"S "+hx("LicenseRef-corp-tos")+" "+hxl([]string{"LicenseRef-corp-tos"}),
+		"S "+hx("LicenseRef-corp-tos")+" "+hxl([]string{"MIT", "LicenseRef-corp-tos"}),
+		"S "+hx("LicenseRef-Corp-TOS")+" "+hxl([]string{"MIT", "LicenseRef-corp-tos"}),
+		"S "+hx("LicenseRef-corp-tos")+" "+hxl([]string{"LicenseRef-CORP-TOS", "mit"}),
+		"S "+hx("DocumentRef-a:LicenseRef-b")+" "+hxl([]string{"DocumentRef-A:LicenseRef-b"}),
+		"S "+hx("DocumentRef-a:LicenseRef-b")+" "+hxl([]string{"DocumentRef-a:LicenseRef-b"}),
+		"S "+hx("mit")+" "+hxl([]string{"MIT"}), "S "+hx("MIT")+" "+hxl([]string{"mit"}),
+		"S "+hx("MIT AND ISC")+" "+hxl(long), "S "+hx("AAL OR Vim")+" "+hxl(long), "L "+hxl(long),
+		"X "+hx("LicenseRef-Acme AND LicenseRef-acme OR mit AND MIT"), "X "+hx("LicenseRef-acme AND LicenseRef-Acme"),
+		"S "+hx("MIT OR Apache-2.0")+" "+hxl([]string{"MIT OR Apache-2.0"}), "S "+hx("MIT")+" "+hxl([]string{"MIT OR Apache-2.0"}),
+		"S "+hx("MIT")+" "+hxl([]string{"MIT", "MIT OR Apache-2.0"}))
 	// argument-sharing stress: long allowed lists with duplicates in unsorted order
 	lines = append(lines, "S "+hx("MIT OR Apache-2.0")+" "+hxl([]string{"Zlib", "MIT", "Apache-2.0", "MIT", "ISC", "BSD-3-Clause", "Apache-2.0"}),
 		"S "+hx("GPL-2.0-or-later AND MIT")+" "+hxl([]string{"mit", "GPL-3.0-only", "Zlib", "GPL-3.0-only", "0BSD"}),
